@@ -29,6 +29,8 @@ type recorder struct {
 	mu    sync.Mutex
 	calls []recCall
 	ret   error
+	real  string // what RealPath answers ("" = "/real")
+	link  string // what Readlink answers ("" = "/tgt")
 }
 
 func (r *recorder) add(entry string, req *sftp.Request) {
@@ -120,10 +122,16 @@ func lstatImpl(b recBase, q *sftp.Request) (sftp.ListerAt, error) {
 }
 func readlinkImpl(b recBase, s string) (string, error) {
 	b.r.addStr("Readlink", s)
+	if b.r.link != "" {
+		return b.r.link, b.r.ret
+	}
 	return "/tgt", b.r.ret
 }
 func realpathImpl(b recBase, s string) (string, error) {
 	b.r.addStr("RealPath", s)
+	if b.r.real != "" {
+		return b.r.real, b.r.ret
+	}
 	return "/real", b.r.ret
 }
 
@@ -541,6 +549,32 @@ func runC10(c *Ctx) {
 	}
 	c10ReplyMaps(c)
 	c10ListPages(c)
+	// texts as given: what a handler's own RealPath / Readlink returns is the handler's answer - with a trailing slash, doubled
+	// slashes, dot segments, relative - and reaches the client byte for byte (the server cleans what it hands TO handlers, not what
+	// they hand back)
+	for ai, ans := range []string{"/srv/data/", "data/sub", "/a//b", "/a/./b/..", "rel/../x", "/", "//", "./", "/real path/\xff"} {
+		rec := &recorder{real: ans, link: ans}
+		p, err := newPair(pairOpt{reqServer: true, handlers: recHandlers(rec, ifcSet{true, true, true, true, true, true})})
+		if err != nil {
+			continue
+		}
+		gotReal, e1 := p.Client.RealPath("/q")
+		gotLink, e2 := p.Client.ReadLink("/q")
+		p.Close()
+		n := c.Case("textasgiven", kvi("i", ai), kvh("answer", []byte(ans)))
+		c.NT(n)
+		c.Stat("textasgiven_cases")
+		switch {
+		case e1 != nil || e2 != nil:
+			c.Oracle(n, false, fmt.Sprintf("text-as-given: RealPath / ReadLink failed: %v / %v", e1, e2))
+		case gotReal != ans:
+			c.Oracle(n, false, fmt.Sprintf("text-as-given: the handler's RealPath answered %q, the client got %q", ans, gotReal))
+		case gotLink != ans:
+			c.Oracle(n, false, fmt.Sprintf("text-as-given: the handler's Readlink answered %q, the client got %q", ans, gotLink))
+		default:
+			c.Oracle(n, true, "")
+		}
+	}
 	// (d) errors returned by handlers reach a real client unchanged in kind
 	for _, s := range specs {
 		if s.base == "nil" || (s.base == "errno" && s.errno > 14) {
